@@ -523,6 +523,73 @@ func init() {
 		return nil
 	})
 	// sync.Pool: no pooling; Get returns New() (or nil), Put drops
+	// sync.Map: an ordinary map from interface keys to interface values (its
+	// operations are atomic; the engine runs one goroutine at a time)
+	anyT := types.Universe.Lookup("any").Type()
+	syncMapOf := func(x *Exec, v Value) *MapV {
+		p, _ := v.(*Value)
+		if p == nil {
+			x.runtimePanic("nil *sync.Map")
+			return &MapV{KT: anyT, VT: anyT}
+		}
+		if x.syncMaps == nil {
+			x.syncMaps = map[*Value]*MapV{}
+		}
+		m := x.syncMaps[p]
+		if m == nil {
+			m = &MapV{KT: anyT, VT: anyT}
+			x.syncMaps[p] = m
+		}
+		return m
+	}
+	reg("(*sync.Map).Load", func(x *Exec, g *G, a []Value) Value {
+		if e := x.mapFind(syncMapOf(x, a[0]), a[1]); e != nil {
+			return TupleV{copyVal(e.V), TTrue}
+		}
+		return TupleV{Iface{}, TFalse}
+	})
+	reg("(*sync.Map).Store", func(x *Exec, g *G, a []Value) Value {
+		x.mapSet(syncMapOf(x, a[0]), a[1], a[2])
+		return nil
+	})
+	reg("(*sync.Map).LoadOrStore", func(x *Exec, g *G, a []Value) Value {
+		m := syncMapOf(x, a[0])
+		if e := x.mapFind(m, a[1]); e != nil {
+			return TupleV{copyVal(e.V), TTrue}
+		}
+		if x.raised {
+			return TupleV{Iface{}, TFalse}
+		}
+		m.Entries = append(m.Entries, &mapEntry{K: copyVal(a[1]), V: copyVal(a[2])})
+		return TupleV{a[2], TFalse}
+	})
+	reg("(*sync.Map).LoadAndDelete", func(x *Exec, g *G, a []Value) Value {
+		if e := x.mapFind(syncMapOf(x, a[0]), a[1]); e != nil {
+			e.Deleted = true
+			return TupleV{copyVal(e.V), TTrue}
+		}
+		return TupleV{Iface{}, TFalse}
+	})
+	reg("(*sync.Map).Delete", func(x *Exec, g *G, a []Value) Value {
+		x.mapDelete(syncMapOf(x, a[0]), a[1])
+		return nil
+	})
+	reg("(*sync.Map).Swap", func(x *Exec, g *G, a []Value) Value {
+		m := syncMapOf(x, a[0])
+		if e := x.mapFind(m, a[1]); e != nil {
+			old := e.V
+			e.V = copyVal(a[2])
+			return TupleV{old, TTrue}
+		}
+		if !x.raised {
+			m.Entries = append(m.Entries, &mapEntry{K: copyVal(a[1]), V: copyVal(a[2])})
+		}
+		return TupleV{Iface{}, TFalse}
+	})
+	reg("(*sync.Map).Clear", func(x *Exec, g *G, a []Value) Value {
+		syncMapOf(x, a[0]).Entries = nil
+		return nil
+	})
 	reg("(*sync.Pool).Get", func(x *Exec, g *G, a []Value) Value {
 		sv := (*a[0].(*Value)).(StructV)
 		nw, _ := sv[len(sv)-1].(*Closure)
